@@ -35,6 +35,13 @@ pub enum Src {
     /// just below, at or just above the 65535-byte limit - the writer has to refuse cleanly what no longer fits
     /// (missed seeded change C02-15: only where an instruction STARTS was still checked)
     GrowOverLimit { m: u16, slack: u16 },
+    /// a generated class with ONE oddity the reader tolerates although the file is not well-formed: kind 0 = a
+    /// LocalVariableTable range that starts one byte later (inside an instruction, if that one is longer than a byte),
+    /// kind 1 = an exception handler whose range is empty (end_pc = start_pc). "Every class description the reader can
+    /// produce" includes these trees. The writer may refuse them; if it writes, the output may be invalid only in the
+    /// ways the input already was (missed seeded changes C02-16: a table the writer cannot express dropped but still
+    /// counted; C02-17: an empty-range handler dropped, which shifts the handler indices type annotations carry)
+    Odd { seed: u64, kind: u8 },
 }
 
 #[derive(Clone, Debug, Serialize, Deserialize)]
@@ -359,6 +366,44 @@ fn grow_over_limit(m: u16, slack: u16) -> Option<Vec<u8>> {
     build(filler).map(|e| e.bytes)
 }
 
+fn odd_class(seed: u64, kind: u8) -> Option<Vec<u8>> {
+    use refclass::gen::feat;
+    let cfg = refclass::GenCfg { features: feat::CODE | feat::DEBUG_TABLES | feat::EXCEPTION_TABLE | feat::TYPE_ANNOTATIONS | feat::ANNOTATIONS | feat::SWITCHES, max_members: 3, max_insns: 30, ..refclass::GenCfg::default() };
+    let sem = refclass::gen_class(&mut Rng::new(seed), &cfg);
+    let enc = refclass::encode(&sem, &refclass::Layout::default()).ok()?;
+    let mut b = enc.bytes.clone();
+    let mut r = Rng::new(seed ^ 0x0DD);
+    let rd = |b: &[u8], at: usize| u16::from_be_bytes([b[at], b[at + 1]]);
+    let wr = |b: &mut [u8], at: usize, v: u16| b[at..at + 2].copy_from_slice(&v.to_be_bytes());
+    if kind % 2 == 0 {
+        // (start_pc, length) pairs of LocalVariableTable entries with length >= 1
+        let c: Vec<(usize, usize)> = enc.map.windows(2).filter(|w| w[0].path.contains("LocalVariableTable") && w[0].path.ends_with("start_pc") && w[1].path.ends_with("length") && rd(&b, w[1].start) >= 1).map(|w| (w[0].start, w[1].start)).collect();
+        if c.is_empty() {
+            return None;
+        }
+        let (s_at, l_at) = *r.pick(&c);
+        let (sv, lv) = (rd(&b, s_at), rd(&b, l_at));
+        wr(&mut b, s_at, sv + 1);
+        wr(&mut b, l_at, lv - 1);
+    } else {
+        let c: Vec<(usize, usize)> = enc.map.windows(2).filter(|w| w[0].path.contains("exception_table") && w[0].path.ends_with("start_pc") && w[1].path.ends_with("end_pc")).map(|w| (w[0].start, w[1].start)).collect();
+        if c.is_empty() {
+            return None;
+        }
+        let (s_at, e_at) = *r.pick(&c);
+        let sv = rd(&b, s_at);
+        wr(&mut b, e_at, sv);
+    }
+    Some(b)
+}
+
+fn validity_prefixes(bytes: &[u8]) -> std::collections::BTreeSet<String> {
+    match refclass::validate(bytes) {
+        Ok(()) => Default::default(),
+        Err(v) => v.iter().map(|m| refclass::validate::prefix(m).to_string()).collect(),
+    }
+}
+
 fn input_bytes(src: &Src) -> Option<Vec<u8>> {
     match src {
         Src::Corpus { idx } => {
@@ -385,6 +430,7 @@ fn input_bytes(src: &Src) -> Option<Vec<u8>> {
         }
         Src::GrowLdc { m, slack, backward, op } => grow_ldc(*m, *slack, *backward, *op),
         Src::GrowOverLimit { m, slack } => grow_over_limit(*m, *slack),
+        Src::Odd { seed, kind } => odd_class(*seed, *kind),
     }
 }
 
@@ -416,6 +462,7 @@ impl Engine for C02 {
                 // slack in -2..=m+2: on both sides of "the grown distance just fits / just does not fit"
                 Src::GrowLdc { m, slack: w.range(0, m as u64 + 4) as i32 - 2, backward: w.chance(40), op: *w.pick(&[153u8, 154, 155, 158, 159, 160, 162, 165, 166, 198, 199]) }
             }
+            31..=35 => Src::Odd { seed: w.next(), kind: w.below(2) as u8 },
             30 => Src::GrowOverLimit { m: w.range(100, 200) as u16, slack: w.below(14) as u16 },
             _ => {
                 let size = match w.below(20) {
@@ -474,6 +521,28 @@ impl Engine for C02 {
                 return out;
             }
         };
+        if let Src::Odd { kind, .. } = &p.src {
+            // a tree from a file that is not well-formed in one tolerated way: refuse cleanly, or write something that is
+            // invalid only in the ways the input already was
+            st.probe("odd_input");
+            st.tier("T0");
+            let before = validity_prefixes(&bytes);
+            let mut w = Vec::new();
+            match no_panic(|| duke::write_class(&mut w, &tree)) {
+                Err(pm) => out.push(Violation::new("T0", "panic", format!("write:{}", panic_path(&pm)), pm)),
+                Ok(Err(_)) => st.probe("odd_input.write_refused"),
+                Ok(Ok(())) => {
+                    st.probe("odd_input.written");
+                    let after = validity_prefixes(&w);
+                    let new: Vec<&String> = after.iter().filter(|x| !before.contains(*x)).collect();
+                    if !new.is_empty() {
+                        out.push(Violation::new("T0", "invalid-output", format!("written-odd-input.{}", new[0]), format!("input (oddity {}) is invalid in {:?}; the written class additionally in {:?}", kind % 2, before, new)));
+                    }
+                }
+            }
+            st.obs = obs;
+            return out;
+        }
         let mut want = match project(&tree) {
             Ok(s) => s,
             Err(_) => {
@@ -496,6 +565,7 @@ impl Engine for C02 {
             }),
             Src::GrowLdc { .. } => st.probe("grow_ldc"),
             Src::GrowOverLimit { .. } => st.probe("grow_over_limit"),
+            Src::Odd { .. } => st.probe("odd_input"),
             Src::Corpus { .. } => st.probe("corpus"),
             Src::Gen { .. } => st.probe("generated"),
         }
